@@ -304,6 +304,10 @@ def targeted_clamps(tier, top):
     out = []
     for qi, (num, den, s, t, pq) in enumerate(quots):
         Q, cQ = ("div", num, den), ("ceil", num, den)
+        # the bare quotient against 1 on the full box and on a sub-box where the verdict is stronger (stale range caches)
+        f = ("sub", Q, C(1))
+        out.append(("a", f, _full(f, top)))
+        out.append(("a", f, {n: ((2, top) if n == s else (1, 2)) for n in ast_syms(f)}))
         for c in (HALF, 1, 2, 3):
             if not thorough and qi > 0 and c == 3:  # on boxes within 1..3 only x/y makes the clamp at 3 interesting
                 continue
@@ -318,10 +322,13 @@ def targeted_clamps(tier, top):
                 for f in fs:
                     out.append(("a", f, _full(f, top)))
                 # a second box on which the clamp is (mostly) inactive / active the other way: stale per-formula caches
-                if thorough or (qi == 0 and c in (1, 2)):
-                    sub = {n: ((2, top) if n == s else (1, 1)) for n in ast_syms(K)}
-                    for f in (("sub", K, Q), ("sub", K, C(1))):
-                        out.append(("a", f, sub))
+                if thorough or qi == 0:
+                    subs = [{n: ((2, top) if n == s else (1, 2)) for n in ast_syms(K)}]  # not degenerate: ranges are really computed
+                    if thorough:
+                        subs.append({n: ((2, top) if n == s else (1, 1)) for n in ast_syms(K)})
+                    for sub in subs:
+                        for f in (("sub", K, Q), ("sub", K, C(1))):
+                            out.append(("a", f, sub))
                 if thorough or qi < 2:  # ceiling() around the quotient, inside the clamp
                     Kc = (kind, C(c), cQ)
                     fc = [("sub", Kc, Q), ("mul", S(s), Kc)] + ([("div", Kc, S(s))] if thorough else [])
@@ -342,6 +349,8 @@ def _sign_factors(v, T):
         "Min(-1,v-T)": (("min", C(-1), ("sub", V, C(T))), -1, True), "Min(-2,v-T)": (("min", C(-2), ("sub", V, C(T))), -1, True),
         "Max(1,v-1)": (("max", C(1), ("sub", V, C(1))), +1, True),
         "Min(0,v-2)": (("min", C(0), ("sub", V, C(2))), -1, False), "Max(0,v-2)": (("max", C(0), ("sub", V, C(2))), +1, False),
+        # the constant decides the sign, the other argument has the opposite one
+        "Min(-1,v-1)": (("min", C(-1), ("sub", V, C(1))), -1, True), "Max(1,v-T)": (("max", C(1), ("sub", V, C(T))), +1, True),
     }
 
 
@@ -351,7 +360,7 @@ def targeted_signs(tier, top):
     out = []
     for T in ((3, 4) if thorough and top >= 4 else (3,)):
         fx, fy, fz = _sign_factors("x", T), _sign_factors("y", T), _sign_factors("z", T)
-        names = list(fx) if thorough else ["v-T", "1-v", "v-T-1", "v-1", "v", "Min(-1,v-T)", "Min(0,v-2)"]
+        names = list(fx) if thorough else ["v-T", "1-v", "v-T-1", "v-1", "v", "Min(-1,v-T)", "Min(0,v-2)", "Min(-1,v-1)", "Max(1,v-T)"]
         dens = [n for n in names if fx[n][2]]
         for i, a in enumerate(names):
             for b in names[i:]:
@@ -374,6 +383,13 @@ def targeted_signs(tier, top):
         ]
         for f in three:
             out.append(("b", f, _full(f, T)))
+        # a factor that changes sign inside the full box but not inside the sub-boxes (a verdict carried over from a sub-box is wrong)
+        for f in (("mul", ("sub", x, C(2)), fy["v-T"][0]), ("div", ("sub", x, C(2)), fy["v-T-1"][0]),
+                  _mul(("sub", x, C(2)), fy["Min(-1,v-T)"][0], z)):
+            ns = sorted(ast_syms(f))
+            out.append(("b", f, _full(f, T)))
+            out.append(("b", f, {n: ((2, T) if n == "x" else (1, T)) for n in ns}))
+            out.append(("b", f, {n: ((1, 2) if n == "x" else (1, T)) for n in ns}))
         # degenerate / shifted boxes: a factor that is == 0 on the whole box, a factor that is strictly negative on it
         for f in (("mul", fx["v-T"][0], fy["v-T"][0]), ("div", fx["v-T"][0], fy["v-T-1"][0]), _mul(x, fy["v-T"][0], fz["v-T"][0]),
                   _mul(fx["Min(-1,v-T)"][0], fy["Min(-2,v-T)"][0], z), ("mul", fx["1-v"][0], fy["v-T"][0])):
@@ -563,7 +579,8 @@ def real_call(kind, expr, sym, bounds, limit):
 # known classes (membership predicates)
 # ---------------------------------------------------------------------------------------------
 def _sound_with_pristine_sympy(r):
-    """F12's differential predicate: rebuild the formula and repeat the call with sympy's own _is_connected"""
+    """F12's / F14's differential predicate: the call fails with cold caches under the module's patch, and no longer fails when the
+    formula is rebuilt and the call repeated with sympy's own _is_connected"""
     M, sp, syms = _load()
     if _S["pristine"] is None:
         return False
@@ -571,6 +588,13 @@ def _sound_with_pristine_sympy(r):
 
     MMB = _S["MinMaxBase"]
     try:
+        # the failure must be one of the input, not of the evaluation order: repeated with cold caches under the module's own patch
+        # it has to show again (a verdict that is wrong only with warm caches is a stale-cache failure, which is in no known class)
+        _clear_caches()
+        v, _ = real_call(r["kind"], r["expr"], r["sym"], r["bounds"], 20.0)
+        viol = violation(r["tabs"], r["kind"], r["names"], r["sym"], v)
+        if viol is None or viol[0] != "all":
+            return False
         MMB._is_connected = _S["pristine"]
         clear_cache()
         _clear_caches()
@@ -788,7 +812,7 @@ def bounded(p):
     L = _limits(tier)
     nt, ne, tags = [0], [0], []
     cases = gen_cases(seed, tier, only_targeted=bool(p.get("only_targeted")), n_targeted=nt, n_enumerated=ne, tags=tags)
-    fam_gen, fam_run = {}, {}
+    fam_gen, fam_run, fam_s = {}, {}, {}
     for t in tags:
         fam_gen[t] = fam_gen.get(t, 0) + 1
     stats = {"cases_generated": len(cases), "cases_run": 0, "excluded_undefined": 0, "calls": 0, "timeouts": 0, "raised": 0,
@@ -861,26 +885,29 @@ def bounded(p):
 
     done, done_t = [], []
     for i, (tree, names, box) in enumerate(cases):
-        if time.time() - t0 > L["budget"] * (1.0 if i >= ne[0] else 1.5):  # the enumerated part gets some grace on a loaded machine
+        if time.time() - t0 > L["budget"]:
             stats["truncated"] = True
             stats["truncated_inside_enumerated_part"] = i < ne[0]
             break
+        tc = time.time()
         recs = run_case(tree, names, box, L["call_limit"], clear=True)
         if recs is None:
             stats["excluded_undefined"] += 1
             continue
         stats["cases_run"] += 1
         fam_run[tags[i]] = fam_run.get(tags[i], 0) + 1
-        (done_t if i < nt[0] else done).append((tree, names, box))
+        fam_s[tags[i]] = fam_s.get(tags[i], 0.0) + time.time() - tc
+        (done_t if i < nt[0] else done).append((tree, names, box, tags[i]))
         absorb(recs, False)
         if fail[0]:
+            fail[0]["family"] = tags[i]
             break
     stats["first_pass_s"] = round(time.time() - t0, 1)
     t1 = time.time()
     if not fail[0]:
         _clear_caches()
         # second evaluation of every case: warm caches, reversed order; the targeted cases first
-        for tree, names, box in list(reversed(done_t)) + list(reversed(done)):
+        for tree, names, box, tag in list(reversed(done_t)) + list(reversed(done)):
             if time.time() - t1 > L["budget2"]:
                 stats["truncated"] = True
                 stats["second_pass_truncated"] = True
@@ -889,6 +916,7 @@ def bounded(p):
             if recs is not None:
                 absorb(recs, True)
             if fail[0]:
+                fail[0]["family"] = tag
                 break
     checked = {k: sum(v[x] for x in ("GEQ", "LEQ", "EQ")) for k, v in verdicts.items()}
     out = {
@@ -910,6 +938,7 @@ def bounded(p):
         "known_finding_hits": sum(hits.values()), "known_finding_hits_by_class": hits,
         "verdicts_first_pass": verdicts, "non_unknown_verdicts_checked": checked, "of_which_non_vacuous": nonvacuous,
         "cases_by_family (generated)": fam_gen, "cases_by_family (run)": fam_run,
+        "first_pass_seconds_by_family (real calls only)": {k: round(v, 1) for k, v in fam_s.items()},
         "stats": stats, "order_sensitive_transitions (cold caches -> warm caches, reversed order)": transitions, "raised_by_type": {k: {"count": v[0], "example": v[1]} for k, v in raised_types.items()},
         "wall_s": round(time.time() - t0, 1),
         "assumptions": ["sampled (seeded) family beyond depth 1 and sampled boxes: exploration, not exhaustive",
